@@ -25,6 +25,10 @@ CLAIMS = {
                    'told to end, has returned and was joined; workers still in '
                    'the hierarchy are alive until end()',
     'C13.no_hang': 'no recv on an empty pipe and no join on a live worker',
+    'C13.wrapped': 'every process marked parallel that is in the hierarchy - '
+                   'also one that arrived through _generate or as a daughter - '
+                   'is a ParallelProcess wrapper, and the published composite '
+                   'holds the very object the store holds',
 }
 GOALS = {'quick': ['deleted with an update in flight', 'deleted while idle',
                    'end called twice', 'engine dropped without end',
@@ -40,7 +44,7 @@ ASSUMPTIONS = ['transport contract: ordered delivery, recv on an empty pipe '
                'by reference (pickling not modelled); OS reaping outside']
 BOUNDS = {'quick': '2 processes + 1 step, parallel or not (two symbolic flags), '
                    'agent timestep in [1,3], second process 2, killer in [1,2], operation in '
-                   '{none, delete, divide with parallel daughters, move}, stop '
+                   '{none, delete, divide with parallel daughters, move, generate a parallel process}, stop '
                    'point in {end after run_for without force, end after '
                    'update, end twice, engine dropped}',
           'thorough': 'same with timesteps [1,4] and two run_for calls before '
@@ -49,7 +53,7 @@ OUTSIDE = 'real pipes, pickling, forkserver start-up, OS scheduling, zombies'
 
 CTX = {}
 SUB = {'s': {'x': {'_default': 0, '_emit': True}}}
-OPS = ['none', 'delete', 'divide', 'move']
+OPS = ['none', 'delete', 'divide', 'move', 'generate']
 STOPS = ['end_after_run_for', 'end_after_update', 'end_twice', 'dropped']
 
 
@@ -105,6 +109,13 @@ class Killer(Process):
         if op == 'move':
             return {'agents': {'_move': [{'source': ('a',),
                                           'target': ('away',)}]}}
+        if op == 'generate':
+            g = Grow({'who': 'a0',
+                      '_parallel': self.parameters['daughters_parallel']})
+            CTX['made'].append(g)
+            return {'agents': {'_generate': [{
+                'key': 'gen', 'processes': {'grow': g},
+                'topology': {'grow': {'s': ('s',)}}, 'initial_state': {}}]}}
         if op == 'divide':
             ds = []
             for sfx in '01':
@@ -123,7 +134,11 @@ def jobs(tier):
     out = []
     for op in OPS:
         for stop in STOPS:
-            for pd in ((True, False) if op == 'divide' else (None,)):
+            if op == 'generate' and q and stop in ('end_after_run_for',
+                                                   'end_twice'):
+                continue
+            for pd in ((True, False) if op in ('divide', 'generate')
+                       else (None,)):
                 out.append(dict(
                     name='%s-%s%s' % (op, stop, '' if pd is None else
                                       '-daughters%d' % pd),
@@ -167,6 +182,15 @@ def run_once(ctx, cfg, flags, ivs, tag):
         live_workers = {id(n.value.multiprocess)
                         for p, n in store_nodes(e.state).items()
                         if not n.inner and isinstance(n.value, ParallelProcess)}
+        from vivarium.library.topology import get_in
+        out['not_wrapped'] = [
+            p for p, n in store_nodes(e.state).items()
+            if not n.inner and isinstance(n.value, Process)
+            and n.value.parallel and not isinstance(n.value, ParallelProcess)]
+        out['published_differs'] = [
+            p for p, n in store_nodes(e.state).items()
+            if not n.inner and isinstance(n.value, Process)
+            and get_in(e.processes, p, get_in(e.steps, p)) is not n.value]
         out['gone_not_stopped'] = [
             w for w in mpstub.WORKERS
             if id(w) not in live_workers and not (w.told_to_end and w.joined)]
@@ -277,6 +301,11 @@ def body(ctx, cfg):
             ctx.observe(str(k), v)
     # ---- stopped / collected
     ws = par['workers']
+    ctx.claim('C13.wrapped', not par.get('not_wrapped') and
+              not par.get('published_differs'), sig='wrapped:' + cfg['op'],
+              info=lambda: dict(not_wrapped=par.get('not_wrapped'),
+                                published_differs=par.get('published_differs'),
+                                **info()))
     ctx.claim('C13.stopped', AND(
         [not par.get('gone_not_stopped'), not par.get('live_dead')]
         + [w['told'] and w['done'] and w['joined'] for w in ws]),
